@@ -267,7 +267,7 @@ def c16(tier, seed, replay_path=None):
                 break
             # the process did not survive: which request was it serving?  Believed only when it dies on the same request again.
             i = max(p.stderr.find("fatal error:"), p.stderr.find("panic:"))
-            if i < 0 or not os.path.exists(out + ".progress"):
+            if i < 0 or not os.path.exists(out + ".progress") or ("panic:" in p.stderr and c.panic_in_harness(p.stderr)):
                 raise c.Infra("apierr harness failed: %s %s" % (p.stdout[-1500:], p.stderr[-1500:]))
             died.append((open(out + ".progress").read(), p.stderr[i:].splitlines()[0][:200], p.stderr[i:i + 3000]))
         if len(died) == 2:
